@@ -15,7 +15,7 @@ THOROUGH = dict(runs=150000, wall=1500)
 RULE = ('socket: real SocketServer.serve() in one simulated thread/loop, real SocketClient (its executor thread and loop), 1-4 connections, '
         '1-4 requester threads plus stream(); routes: echo with payload-determined latency (responses complete out of order), raising '
         'route, no-argument route; payloads: bytes with newlines / header-like text, empty bytes and str, 0 / False, nested structures, '
-        'sizes straddling 64 KiB (StreamReader limit, transport high-water mark) up to ~1 MB; transport faults: each write cut at up to 6 '
+        'sizes straddling 64 KiB (StreamReader limit, transport high-water mark) up to 3.3 MB; transport faults: each write cut at up to 6 '
         'arbitrary points (half of them inside the header line), per-chunk delivery delay, write flow-control pauses; adversarial id() '
         'reuse for the client request ids. pipe (simulated FIFOs, process runs): both directions concurrently, short reads/writes')
 NONTRIVIAL_RULE = '>=2 requests in flight together (>=2 threads runnable at some step) and at least one fragmented write'
@@ -28,7 +28,7 @@ ASSUMPTIONS = ['peer disconnects are outside the statement and are not injected'
 def _payload(rng, seq):
     k = rng.choice(['bytes_nl', 'header_like', 'empty_b', 'empty_s', 'zero', 'false', 'nested', 'big', 'big', 'str', 'int', 'huge'])
     return {'kind': k, 'seq': seq, 'size': rng.choice([1, 100, 65000, 65536, 65537, 70000, 131072, 200000]) if k in ('big',) else
-            (rng.choice([600000, 1100000]) if k == 'huge' else rng.choice([0, 5, 50, 300]))}
+            (rng.choice([600000, 1100000, 1100000, 3300000]) if k == 'huge' else rng.choice([0, 5, 50, 300]))}
 
 
 def mk_payload(p):
